@@ -140,6 +140,7 @@ class SimFS(object):
         self.counts = {}
         self.on_boundary = on_boundary
         self.disk_full = False     # set by a persistent ENOSPC fault
+        self.fds = {}              # descriptors opened with os.open on paths inside the root
         self._saved = None
 
     # -- helpers
@@ -168,7 +169,10 @@ class SimFS(object):
 
     # -- patched entry points
     def _open(self, file, mode="r", *args, **kwargs):
-        rel = self.inside(file) if not isinstance(file, int) else None
+        if isinstance(file, int):
+            rel = self.fds.get(file)        # os.fdopen() of a descriptor we saw being opened
+        else:
+            rel = self.inside(file)
         if rel is None:
             return self._saved["open"](file, mode, *args, **kwargs)
         writing = any(c in mode for c in "wax+")
@@ -190,6 +194,65 @@ class SimFS(object):
         real = self._saved["open"](file, mode, *args, **kwargs)
         self.journal.append(("open", rel, mode))
         return FileProxy(self, real, rel, writing)
+
+    def _fileio(self, file, mode="r", *args, **kwargs):
+        """io.FileIO(path, mode): the unbuffered variant of open()."""
+        rel = self.fds.get(file) if isinstance(file, int) else self.inside(file)
+        if rel is None:
+            return self._saved["FileIO"](file, mode, *args, **kwargs)
+        writing = any(c in mode for c in "wax+")
+        if writing:
+            n = self.count("open_write")
+            f = self.plan.match("open_write", n)
+            self.boundary("open_write", rel)
+            if f is not None:
+                self.journal.append(("open!", rel, mode))
+                raise PermissionError(errno.EACCES, os.strerror(errno.EACCES), str(file))
+        real = self._saved["FileIO"](file, mode, *args, **kwargs)
+        self.journal.append(("open", rel, mode))
+        return FileProxy(self, real, rel, writing)
+
+    def _os_open(self, path, flags, *args, **kwargs):
+        rel = self.inside(path)
+        if rel is not None and flags & (os.O_WRONLY | os.O_RDWR):
+            n = self.count("open_write")
+            f = self.plan.match("open_write", n)
+            self.boundary("open_write", rel)
+            if f is not None:
+                self.journal.append(("open!", rel, "os.open"))
+                raise PermissionError(errno.EACCES, os.strerror(errno.EACCES), str(path))
+        fd = self._saved["os_open"](path, flags, *args, **kwargs)
+        if rel is not None and flags & (os.O_WRONLY | os.O_RDWR):
+            self.fds[fd] = rel
+            self.journal.append(("open", rel, "os.open"))
+        return fd
+
+    def _os_write(self, fd, data):
+        rel = self.fds.get(fd)
+        if rel is None:
+            return self._saved["os_write"](fd, data)
+        n = self.count("write")
+        f = self.plan.match("write", n)
+        self.boundary("write", rel)
+        if f is None and self.disk_full:
+            self.journal.append(("write!", rel, "enospc-persistent"))
+            raise OSError(errno.ENOSPC, os.strerror(errno.ENOSPC))
+        if f is not None:
+            if f.get("persistent"):
+                self.disk_full = True
+            mode = f.get("mode", "enospc")
+            if mode == "enospc_partial" and len(data) > 1:
+                self._saved["os_write"](fd, data[:len(data) // 2])
+            self.journal.append(("write!", rel, mode))
+            code = errno.EIO if mode == "eio" else errno.ENOSPC
+            raise OSError(code, os.strerror(code))
+        r = self._saved["os_write"](fd, data)
+        self.journal.append(("write", rel, len(data)))
+        return r
+
+    def _os_close(self, fd):
+        self.fds.pop(fd, None)
+        return self._saved["os_close"](fd)
 
     def _mover(self, name):
         def move(src, dst, *args, **kwargs):
@@ -220,9 +283,15 @@ class SimFS(object):
     # -- installation
     def __enter__(self):
         self._saved = {"open": builtins.open, "io_open": io.open, "rename": os.rename,
-                       "replace": os.replace, "unlink": os.unlink, "remove": os.remove}
+                       "replace": os.replace, "unlink": os.unlink, "remove": os.remove,
+                       "FileIO": io.FileIO, "os_open": os.open, "os_write": os.write,
+                       "os_close": os.close}
         builtins.open = self._open
         io.open = self._open
+        io.FileIO = self._fileio
+        os.open = self._os_open
+        os.write = self._os_write
+        os.close = self._os_close
         os.rename = self._mover("rename")
         os.replace = self._mover("replace")
         os.unlink = self._remover("unlink")
@@ -233,6 +302,10 @@ class SimFS(object):
         s = self._saved
         builtins.open = s["open"]
         io.open = s["io_open"]
+        io.FileIO = s["FileIO"]
+        os.open = s["os_open"]
+        os.write = s["os_write"]
+        os.close = s["os_close"]
         os.rename = s["rename"]
         os.replace = s["replace"]
         os.unlink = s["unlink"]
